@@ -25,21 +25,22 @@ import (
 // exit codes: 0 property held; 1 violation (with VIOLATION line); 2 machinery trouble.
 
 type workerResult struct {
-	Runs       int            `json:"runs"`
-	NonTrivial int            `json:"nontrivial"`
-	FaultFree  int            `json:"fault_free"`
-	Events     int            `json:"events"`
-	Hashes     string         `json:"hashes"` // base64 of packed uint64 trace hashes of non-trivial runs
-	Faults     map[string]int `json:"faults"`
-	Probes     map[string]int `json:"probes"`
-	Known      map[string]int `json:"known,omitempty"`
-	Violation  *Violation     `json:"violation,omitempty"`
-	VIndex     int            `json:"vindex"`
-	Hang       bool           `json:"hang,omitempty"`
-	HangIndex  int            `json:"hang_index,omitempty"`
-	Harness    string         `json:"harness,omitempty"`
-	Samples    []*Scenario    `json:"samples,omitempty"`
-	WallS      float64        `json:"wall_s"`
+	Runs         int            `json:"runs"`
+	NonTrivial   int            `json:"nontrivial"`
+	FaultFree    int            `json:"fault_free"`
+	Events       int            `json:"events"`
+	Hashes       string         `json:"hashes"` // base64 of packed uint64 trace hashes of non-trivial runs
+	HashesCapped bool           `json:"hashes_capped,omitempty"`
+	Faults       map[string]int `json:"faults"`
+	Probes       map[string]int `json:"probes"`
+	Known        map[string]int `json:"known,omitempty"`
+	Violation    *Violation     `json:"violation,omitempty"`
+	VIndex       int            `json:"vindex"`
+	Hang         bool           `json:"hang,omitempty"`
+	HangIndex    int            `json:"hang_index,omitempty"`
+	Harness      string         `json:"harness,omitempty"`
+	Samples      []*Scenario    `json:"samples,omitempty"`
+	WallS        float64        `json:"wall_s"`
 }
 
 func verifDir() string {
@@ -217,9 +218,15 @@ func cmdWorker(args []string) int {
 		}
 		if st.NonTrivial {
 			res.NonTrivial++
-			var hb [8]byte
-			binary.LittleEndian.PutUint64(hb[:], st.Hash.Sum())
-			hashes = append(hashes, hb[:]...)
+			// trace hashes are kept for the exact distinct count; beyond 4 M per worker (32 MB) they are
+			// only counted, and the reported number of distinct traces becomes a lower bound
+			if len(hashes) < 32<<20 {
+				var hb [8]byte
+				binary.LittleEndian.PutUint64(hb[:], st.Hash.Sum())
+				hashes = append(hashes, hb[:]...)
+			} else {
+				res.HashesCapped = true
+			}
 		}
 		if len(res.Samples) < 2 && sc.totalDocBytes() < 600 && st.NonTrivial && i >= *of*3 {
 			res.Samples = append(res.Samples, sc)
@@ -453,6 +460,7 @@ func cmdRun(args []string) int {
 		addCounts(agg.Faults, r.Faults)
 		addCounts(agg.Probes, r.Probes)
 		addCounts(agg.Known, r.Known)
+		agg.HashesCapped = agg.HashesCapped || r.HashesCapped
 		hb, _ := base64.StdEncoding.DecodeString(r.Hashes)
 		for i := 0; i+8 <= len(hb); i += 8 {
 			distinct[binary.LittleEndian.Uint64(hb[i:])] = struct{}{}
@@ -814,22 +822,23 @@ func writeEvidence(c Check, tier string, seed uint64, agg workerResult, distinct
 		"seed":        int64(seed & 0x7fffffffffffffff),
 		"level":       c.Level(),
 		"coverage": map[string]interface{}{
-			"evaluations":         agg.Runs,
-			"distinct_nontrivial": distinct,
-			"rule":                c.Rule(),
-			"samples":             samples,
-			"exhaustive":          false,
-			"runs_per_hour":       perHour,
-			"seeds_per_hour":      perHour,
-			"fault_free_runs":     agg.FaultFree,
-			"events":              agg.Events,
-			"events_per_run":      evPerRun,
-			"simulated_time":      "n/a - no clock in the system under test; the time axis is the event sequence number (events above)",
-			"faults_fired":        agg.Faults,
-			"probes":              agg.Probes,
-			"known_findings_hit":  agg.Known,
-			"components":          components,
-			"go_version":          runtime.Version(),
+			"evaluations":                          agg.Runs,
+			"distinct_nontrivial":                  distinct,
+			"rule":                                 c.Rule(),
+			"samples":                              samples,
+			"exhaustive":                           false,
+			"runs_per_hour":                        perHour,
+			"seeds_per_hour":                       perHour,
+			"fault_free_runs":                      agg.FaultFree,
+			"events":                               agg.Events,
+			"events_per_run":                       evPerRun,
+			"simulated_time":                       "n/a - no clock in the system under test; the time axis is the event sequence number (events above)",
+			"faults_fired":                         agg.Faults,
+			"probes":                               agg.Probes,
+			"known_findings_hit":                   agg.Known,
+			"distinct_nontrivial_is_a_lower_bound": agg.HashesCapped,
+			"components":                           components,
+			"go_version":                           runtime.Version(),
 		},
 		"assumptions": c.Assumptions(),
 		"wall_s":      wall,
